@@ -56,7 +56,7 @@ def exact_run(y, w, lam):
         if frame.f_code is f.__code__:
             def local(fr, ev, a):
                 if ev == "return":
-                    captured.update({k: list(fr.f_locals[k]) for k in ("d", "c", "e", "z")})
+                    captured.update({k: list(fr.f_locals[k]) for k in ("d", "c", "e", "z") if k in fr.f_locals})
                 return local
             return local
         return None
@@ -71,8 +71,8 @@ def exact_run(y, w, lam):
     finally:
         sys.settrace(old)
         g["zeros"] = saved
-    if not captured:
-        raise core.Machinery("could not capture ws2d's locals at return")
+    for k in ("d", "c", "e"):
+        captured.setdefault(k, [])      # a source that returns before allocating them: only z is checked
     captured["z"] = list(z)
     return captured
 
